@@ -133,6 +133,15 @@ def run(ctx):
                     via = selfM if txt(cb[0].value).endswith(selfM) else selfL
                     if txt(t) in (f"{e} in self", f"{e} not in self", f"not {e} in self"):
                         t = ast.parse(txt(t).replace(" in self", f" in {via}"), mode="eval").body
+            # `M.get(e) is not None` is membership (the stored positions are ints); bare `M.get(e)` is NOT: position 0 is falsy
+            if txt(t) in (f"{selfM}.get({e}) is not None", f"{selfM}.get({e}, None) is not None"):
+                t = ast.parse(f"{e} in {selfM}", mode="eval").body
+            elif txt(t) in (f"{selfM}.get({e}) is None", f"{selfM}.get({e}, None) is None"):
+                t = ast.parse(f"{e} not in {selfM}", mode="eval").body
+            elif txt(t) in (f"{selfM}.get({e})", f"{selfM}.get({e}, None)", f"not {selfM}.get({e})", f"{selfM}.get({e}, 0)", f"{selfM}.get({e}, False)"):
+                o.violated(add, body[0], f"`{txt(t)}` tests the TRUTH of the stored position: the element in slot 0 has position 0, which is falsy - it counts as absent, a second add "
+                                         "appends a duplicate and orphans the slot", shape_free=True)
+                t = ast.parse(f"{e} in {selfM}" if not txt(t).startswith("not ") else f"{e} not in {selfM}", mode="eval").body
             if txt(t) in (f"{e} in {selfM}", f"{e} in {selfL}") and len(body[0].body) == 1 and isinstance(body[0].body[0], ast.Return) and not body[0].orelse:
                 guarded_body = body[1:]
                 o.holds(add, body[0], "present element -> return with no effect")
@@ -246,7 +255,9 @@ def run(ctx):
                     o.violated(rem, s, "absent element returns silently: removing an absent element must raise")
 
     def _ob_241(o):
-        pops = [s for s in stmts if isinstance(s, (ast.Assign, ast.AnnAssign, ast.Expr)) and match(pat(f"{selfL}.pop()"), s.value) is not None]
+        pops = [s for s in stmts if isinstance(s, (ast.Assign, ast.AnnAssign, ast.Expr)) and (match(pat(f"{selfL}.pop()"), s.value) is not None
+                                                                                             or match(pat(f"{selfL}.pop(-1)"), s.value) is not None
+                                                                                             or match(pat(f"{selfL}.pop(len({selfL}) - 1)"), s.value) is not None)]
         # `del L[-1]` / `del L[len(L) - 1]` drops the final slot like a bare `L.pop()`
         pops += [s for s in stmts if isinstance(s, ast.Delete) and len(s.targets) == 1
                  and (match(pat(f"{selfL}[-1]"), s.targets[0]) is not None or match(pat(f"{selfL}[len({selfL}) - 1]"), s.targets[0]) is not None)]
@@ -386,8 +397,10 @@ def run(ctx):
             v = body[0].value
             if name == "__contains__":
                 p = m.params[1] if len(m.params) > 1 else "?"
-                if txt(v) in (f"{p} in {selfM}", f"{p} in {selfL}"):
+                if txt(v) in (f"{p} in {selfM}", f"{p} in {selfL}", f"{selfM}.get({p}) is not None", f"{selfM}.get({p}, None) is not None"):
                     o.holds(m, v, what)
+                elif txt(v) in (f"{selfM}.get({p})", f"bool({selfM}.get({p}))", f"{selfM}.get({p}, False)", f"bool({selfM}.get({p}, False))"):
+                    o.violated(m, v, f"`{txt(v)}` is the TRUTH of the stored position: the element in slot 0 (position 0) tests as absent", shape_free=True)
                 elif txt(v) in (f"{p} not in {selfM}", f"{p} not in {selfL}"):
                     o.violated(m, v, "membership test is negated")
                 else:
@@ -400,8 +413,24 @@ def run(ctx):
                     o.violated(m, v, "draw is taken from a slice of the members: some member can never be drawn")
                 elif isinstance(v, ast.Subscript) and txt(v.value) == selfL:
                     idx = v.slice
-                    if isinstance(idx, ast.Call) and prog.external(m.module, idx.func) == "random.randrange" and [txt(a) for a in idx.args] == [f"len({selfL})"]:
+                    ext_ = prog.external(m.module, idx.func) if isinstance(idx, ast.Call) else None
+                    ia = [tm.parse(txt(a)) for a in idx.args] if isinstance(idx, ast.Call) and not idx.keywords and all(not isinstance(a, ast.Starred) for a in idx.args) else []
+                    nL = tm.parse(f"len({selfL})")
+                    lo_hi = None        # half-open [lo, hi) of the drawn index
+                    if ext_ == "random.randrange" and len(ia) == 1:
+                        lo_hi = (tm.ZERO, ia[0])
+                    elif ext_ == "random.randrange" and len(ia) == 2:
+                        lo_hi = (ia[0], ia[1])
+                    elif ext_ == "random.randint" and len(ia) == 2:
+                        lo_hi = (ia[0], tm.add(ia[1], tm.ONE))
+                    if lo_hi is not None and lo_hi == (tm.ZERO, nL):
                         o.holds(m, v, "uniform index over the members")
+                    elif lo_hi is not None and not tm.has_opaque(lo_hi[0]) and not tm.has_opaque(lo_hi[1]):
+                        o.violated(m, v, f"the index is drawn from [{tm.show(lo_hi[0])}, {tm.show(lo_hi[1])}) but the members occupy [0, len): "
+                                         + ("some member can never be drawn (and a one-element set raises)" if tm.is_const(tm.sub(nL, lo_hi[1])) is not None and tm.is_const(tm.sub(nL, lo_hi[1])) > 0 or lo_hi[0] != tm.ZERO
+                                            else "an index past the end can be drawn (IndexError)"), shape_free=True)
+                    elif False:
+                        pass
                     elif astx.const_value(idx) is not None:
                         o.violated(m, v, "draw always returns the same slot: not every member can be drawn")
                     else:
